@@ -237,6 +237,19 @@ def apply_entry(case, k32, out):
   return res
 
 
+def _bias_outside(cfg, k):
+  """Region of finding F-C04-1: the returned bias (first keypoint output) is
+  outside the bounds or within the 0.001 dead zone of the bound the function
+  moves towards, so the scaling finaliser cannot (and does not try to) fix it."""
+  b = float(k[0])
+  lo, hi = cfg["omin"], cfg["omax"]
+  if cfg["mono"] >= 0:
+    return bool((hi is not None and b >= hi - 0.0011) or
+                (lo is not None and b < lo))
+  return bool((lo is not None and b <= lo + 0.0011) or
+              (hi is not None and b > hi))
+
+
 def run_case(case):
   out = Outcome()
   cfg = case["cfg"]
@@ -291,7 +304,8 @@ def run_case(case):
     if m["bounds"] > tol:
       out.violate("keypoint output outside the bounds by %.3g (tolerance %.3g)"
                   " in unit %d via %s" % (m["bounds"], tol, u, case["entry"]),
-                  kind="bounds", **sig)
+                  kind="bounds", bias_outside=_bias_outside(cfg, res[:, u]),
+                  **sig)
     if exempt_conv:
       out.label("exempt:convexity+bounds-without-monotonicity")
     elif m["conv"] > tol:
